@@ -9,8 +9,8 @@ CONSTANTS
   NewTimeouts = {0, 2}
   WaitTimeouts = {99, 1}
   Dto = 99
-  MaxCalls = 2
-  MaxTime = 2
+  MaxCalls = 3
+  MaxTime = 1
 INVARIANT ActionsOnce
 INVARIANT QueuedOnlyWhilePending
 INVARIANT FlusherHasWork
